@@ -54,22 +54,23 @@ type e3Violation struct {
 }
 
 type e3Result struct {
-	Name           string        `json:"name"`
-	Schedules      int           `json:"schedules"`
-	Points         int           `json:"points"`
-	Decisions      int           `json:"decisions"`
-	Deadlocks      int           `json:"deadlocks"`
-	MaxDepth       int           `json:"max_depth"`
-	BoundCompleted int           `json:"bound_completed"`
-	BoundAsked     int           `json:"bound_asked"`
-	Exhaustive     bool          `json:"exhaustive"`
-	Outcomes       []string      `json:"outcomes"`
-	Violating      int           `json:"violating_executions"`
-	Violations     []e3Violation `json:"violations"`
-	Broken         string        `json:"broken,omitempty"`
-	SampleTrace    []string      `json:"sample_trace"`
-	Shared         []string      `json:"shared_locations"`
-	WallS          float64       `json:"wall_s"`
+	Name             string        `json:"name"`
+	Schedules        int           `json:"schedules"`
+	Points           int           `json:"points"`
+	Decisions        int           `json:"decisions"`
+	Deadlocks        int           `json:"deadlocks"`
+	MaxDepth         int           `json:"max_depth"`
+	BoundCompleted   int           `json:"bound_completed"`
+	BoundAsked       int           `json:"bound_asked"`
+	Exhaustive       bool          `json:"exhaustive"`
+	Outcomes         []string      `json:"outcomes"`
+	Violating        int           `json:"violating_executions"`
+	Violations       []e3Violation `json:"violations"`
+	Broken           string        `json:"broken,omitempty"`
+	AllInterleavings int           `json:"all_interleavings"` // > 0: every interleaving was enumerated (no bound)
+	SampleTrace      []string      `json:"sample_trace"`
+	Shared           []string      `json:"shared_locations"`
+	WallS            float64       `json:"wall_s"`
 }
 
 func e3Quiet() {
@@ -207,6 +208,36 @@ func e3Explore(sc e3Scenario, deadline time.Time) e3Result {
 		}
 	}
 	res.Exhaustive = res.BoundCompleted == sc.Bound && res.Violating == 0 && res.Broken == ""
+	// Small trees: also enumerate EVERY interleaving (no preemption bound at all), so the evidence
+	// can say whether the bound was a restriction for this scenario.
+	thr, capU := 120, 1500
+	if e3Tier == "thorough" {
+		thr, capU = 600, 6000
+	}
+	if res.Exhaustive && res.Schedules <= thr && time.Now().Before(deadline) {
+		var lastIssues []e3Issue
+		st := vsched.Explore(1<<30, capU, func(prefix []int) *vsched.Execution {
+			x, issues, _ := e3RunOne(sc, prefix)
+			lastIssues = issues
+			return x
+		}, func(x *vsched.Execution) bool {
+			if len(lastIssues) > 0 {
+				res.Violating++
+				if len(res.Violations) < 8 {
+					res.Violations = append(res.Violations, e3Violation{Scenario: sc.Name, Choices: append([]int{}, x.Choices...), Preemptions: x.Preemptions, Issues: lastIssues, Trace: x.Trace})
+				}
+				return false
+			}
+			return !time.Now().After(deadline)
+		})
+		if !st.Cut && res.Violating == 0 && !time.Now().After(deadline) {
+			res.AllInterleavings = st.Schedules
+			res.Schedules, res.Points, res.Decisions = st.Schedules, st.Points, st.Decisions
+		}
+		if res.Violating > 0 {
+			res.Exhaustive = false
+		}
+	}
 	for o := range outcomes {
 		res.Outcomes = append(res.Outcomes, o)
 	}
@@ -233,8 +264,11 @@ func e3Explore(sc e3Scenario, deadline time.Time) e3Result {
 
 var e3Scenarios = map[string]func(tier string) []e3Scenario{}
 
+var e3Tier string
+
 func e3Worker(prop, tier string, idx int, budgetS int) {
 	e3Quiet()
+	e3Tier = tier
 	scs := e3Scenarios[prop](tier)
 	res := e3Explore(scs[idx], time.Now().Add(time.Duration(budgetS)*time.Second))
 	data, _ := json.Marshal(res)
@@ -313,7 +347,7 @@ func e3RunAll(run *h.Run, findingOf func(v e3Violation) string) []e3Result {
 			minOutcomes = n
 		}
 		per = append(per, map[string]any{"scenario": r.Name, "schedules": r.Schedules, "scheduling_points": r.Points, "decisions": r.Decisions, "bound_completed": r.BoundCompleted,
-			"bound_asked": r.BoundAsked, "exhaustive_within_bound": r.Exhaustive, "distinct_outcomes": len(r.Outcomes), "outcomes": r.Outcomes, "max_depth": r.MaxDepth, "violating_executions": r.Violating, "wall_s": r.WallS,
+			"bound_asked": r.BoundAsked, "exhaustive_within_bound": r.Exhaustive, "distinct_outcomes": len(r.Outcomes), "outcomes": r.Outcomes, "max_depth": r.MaxDepth, "violating_executions": r.Violating, "wall_s": r.WallS, "every_interleaving_enumerated_unbounded": r.AllInterleavings > 0, "all_interleavings": r.AllInterleavings,
 			"instrumented_locations_touched_by_several_threads": len(r.Shared), "examples_of_shared_locations": firstN(r.Shared, 6)})
 		if minShared < 0 || len(r.Shared) < minShared {
 			minShared = len(r.Shared)
@@ -333,6 +367,14 @@ func e3RunAll(run *h.Run, findingOf func(v e3Violation) string) []e3Result {
 		exhaustive = exhaustive && prev
 	}
 	run.Cov["exhaustive"] = exhaustive
+	unb := 0
+	for _, r := range results {
+		if r.AllInterleavings > 0 {
+			unb++
+		}
+	}
+	run.Cov["scenarios_explored_without_any_bound"] = unb
+	run.Cov["scenarios_total"] = len(results)
 	run.Cov["min_distinct_outcomes_per_scenario"] = minOutcomes
 	run.Cov["min_shared_locations_per_scenario"] = minShared
 	run.Cov["vacuity_guard"] = "every scenario lists the instrumented locations touched by more than one thread (threads that share nothing cannot collide); distinct outcomes per scenario are listed too - for purity properties a single outcome is the expected result"
